@@ -10,7 +10,7 @@ from ..core import unhx
 THEOREMS = ['csv_roundtrip', 'csv_log_rows', 'csv_db_rows', 'csv_dates_iso', 'csv_resolved_sorted', 'csv_resolved_perm', 'amount_within_half_ulp', 'amount_fixed_precision']
 LEVEL = 'proof'
 RULE = ('logs and books whose names range over letters of several scripts, digits, blanks, "/", commas, double quotes, CR and other punctuation; quantities '
-        'negative, tiny, large and on rounding boundaries; each export is read back with an independent RFC 4180 reader (Python csv) and compared with the '
+        'negative, tiny, large and on rounding boundaries; recipe books with a repeated heading; each export is read back with an independent RFC 4180 reader (Python csv) and compared with the '
         'rows the input defines; non-trivial = a name that needs quoting or a value on a rounding boundary; distinct by input hash')
 ASSUMPTIONS = ['the independent reader accepts LF and CRLF record ends (Go writes LF)']
 
@@ -54,6 +54,10 @@ def gen(g, count):
         leaves = names(g, g.r.randint(1, 4)) + [b'calories']
         rec = [x for x in rec if x not in leaves]
         book = [(n, [(g.r.choice(leaves + rec[:i]), qty(g)) for _ in range(g.r.randint(0, 4))]) for i, n in enumerate(rec)]
+        if book and g.r.random() < 0.25:
+            # the same heading twice in the recipe book: the later record replaces the earlier one (one entry per recipe)
+            dup = g.r.choice(book)[0]
+            book.insert(g.r.randint(0, len(book)), (dup, [(g.r.choice(leaves), qty(g)) for _ in range(g.r.randint(0, 3))]))
         foods = rec + names(g, 3)
         log = []
         for d in g.r.sample(__import__('hv.gen', fromlist=['WINDOW']).WINDOW, g.r.randint(1, 3)):
